@@ -84,6 +84,8 @@ def hist_tree(rnd, sid, steps=8, faults=False, probes=False):
             ops.append({"op": "set", "p": ap(o, p), "v": bits(rnd.randrange(4), 2)})
         elif r < 0.3:
             p = rnd.choice([s for s in info["scalars"] if s.endswith("x") or s == "y"])
+            if rnd.random() < 0.35:
+                p = rnd.choice([m for m in info["objs"] if m and "[" not in m])       # a member object as a whole
             ops.append({"op": "rand_mode", "p": ap(o, p), "b": rnd.random() < 0.4})
         else:
             call = rand_call(rnd, o, info)
@@ -186,7 +188,11 @@ def world_siblings(rnd):
     sub = {"base": "", "fields": [fld("x", 2, False), fld("z", 1, False, rand=rnd.random() < 0.5, init=1),
                                   # every sub-object owns a list of its own (lengths diverge through edits)
                                   {"name": "il", "kind": "list", "w": 2, "signed": False, "rand": False, "init": [1], "cap": 4}],
-           "blocks": [{"name": "sc", "dynamic": False, "body": [E(B("ne", F("x"), lit(rnd.randrange(4))))]}]}
+           "blocks": [{"name": "sc", "dynamic": False, "body": [E(B("ne", F("x"), lit(rnd.randrange(4))))]},
+                      # a foreach in the member's OWN block over its own list: unrolled per instance, anew for every call
+                      {"name": "sl", "dynamic": False,
+                       "body": [{"k": "foreach", "l": "il", "v": "q", "it": True, "idx": False,
+                                 "body": [E(B("ne", F("x"), {"k": "it", "v": "q", "p": ""}))]}]}]}
     r = [rnd.random() < 0.8 for _ in range(3)]
     rels = ["lt", "le", "ne", "gt"]
     top_fields = [{"name": "s1", "kind": "obj", "cls": "Sub", "rand": r[0]},
@@ -231,12 +237,20 @@ def family_siblings(tier, seed, n=None):
             if rnd.random() < 0.5:
                 p = rnd.choice(["s1.x", "s2.x", "s3.x", "ol[0].x", "ol[1].x"])
                 ops.append({"op": "set", "p": "o1." + p, "v": bits(rnd.randrange(4), 2)})
+            if rnd.random() < 0.4:
+                # a member's own list grows BETWEEN calls (list elements and plain members alike)
+                ops.append({"op": "list", "kind": "l_append", "p": "o1." + rnd.choice(["ol[0]", "ol[1]", "s1"]) + ".il", "vs": [bits(rnd.randrange(4), 2)]})
             ops.append({"op": "call", "call": rnd.choice([mcall("o1"), mcall("o2"),
                                                           {"kind": "free", "roots": ["o1.s2"], "owner": "", "inline": []},
                                                           wcall([E(B("ne", F("s1.x"), F("ol[0].x")))], "o1")])})
             if rnd.random() < 0.35:
                 # the object list is emptied and refilled with fresh objects: ol[K] now denotes the NEW element
                 ops.append({"op": "ol_refill", "p": "o1.ol"})
+                ops.append({"op": "call", "call": mcall("o1")})
+            elif rnd.random() < 0.35:
+                # one element is replaced by index assignment: ol[K] now denotes the new object, its neighbours stay
+                ops.append({"op": "set", "p": "o1.ol[%d].z" % (i % 2), "v": bits(rnd.randrange(2), 1)})
+                ops.append({"op": "ol_setitem", "p": "o1.ol", "i": i % 2})
                 ops.append({"op": "call", "call": mcall("o1")})
             ops.append({"op": "probe", "call": wcall([], "o1"), "paths": "ALL:o1", "mode": "around", "nsol": 4, "cap": 200})
         ops.append({"op": "probe", "call": wcall([], "o1"), "paths": "ALL:o1", "cap": 600})
